@@ -274,22 +274,39 @@ def shard_models(arg, acc):
 # ---------------------------------------------------------------------------
 # (c) schema-level extends of base files
 
-def schema_extends_chain(nb, variant, d, acc):
-    """top extends c1 extends c2 (extends c3): key type / datatype set only at one level of the chain."""
+def schema_extends_chain(nb, variant, d, acc, layout="flat"):
+    """top extends c1 extends c2 (extends c3): key type / datatype set only at one level of the chain.
+    layout (wave 6): "flat" = all documents in one directory; "deeper" = every base document one directory below the
+    document that extends it; "zigzag" = alternately one directory below and back up.  References are relative to the
+    document that holds them."""
     where = {"chain-root": nb, "chain-mid": 1, "chain-none": 0}[variant]
     all_types, all_items = [], []
+    # directory (relative to d) of document i (0 = top.xml) and the reference from document i-1 to document i
+    rel = {0: ""}
+    for i in range(1, nb + 1):
+        if layout == "flat":
+            rel[i] = ""
+        elif layout == "deeper":
+            rel[i] = os.path.join(rel[i - 1], "lv%d" % i)
+        else:
+            rel[i] = os.path.join(rel[i - 1], "zz") if i % 2 else os.path.dirname(rel[i - 1])
+
+    def ref(i):
+        r = os.path.relpath(os.path.join("/", rel[i], "chain%d.xml" % i), os.path.join("/", rel[i - 1]))
+        return r.replace(os.sep, "/")
     for i in range(nb, 0, -1):
         t = M.SType("ct%d" % i, (M.Key("ck", default="c%d" % i),))
         its = (M.Key("chainkey%d" % i, default="v%d" % i), M.Sect("*", "ct%d" % i, attribute="cs%d" % i, multi=True))
         S = M.Schema(types=(t,), items=its, keytype="identifier" if i == where else None,
                      datatype=WRAP if i == where else None,
-                     extends=("chain%d.xml" % (i + 1),) if i < nb else ())
-        with open(os.path.join(d, "chain%d.xml" % i), "w") as f:
+                     extends=(ref(i + 1),) if i < nb else ())
+        os.makedirs(os.path.join(d, rel[i]), exist_ok=True)
+        with open(os.path.join(d, rel[i], "chain%d.xml" % i), "w") as f:
             f.write(M.render(S))
         all_types.append(t)
         all_items += list(its)
     own_items = (M.Key("Own", default="o"), M.Key("own2", default="p"))
-    composed = M.Schema(items=own_items, extends=("chain1.xml",))
+    composed = M.Schema(items=own_items, extends=(ref(1),))
     merged = M.Schema(types=tuple(all_types), items=tuple(all_items) + own_items,
                       keytype="identifier" if where else None, datatype=WRAP if where else None)
     path = os.path.join(d, "top.xml")
@@ -304,7 +321,8 @@ def schema_extends_chain(nb, variant, d, acc):
             return None, "SchemaError: %s" % str(e)[:100]
         except Exception as e:
             return None, core.exc_desc(e)
-    mid = {"feature": "schema-extends", "chain_depth": nb, "types_set_at": variant}
+    mid = {"feature": "schema-extends", "chain_depth": nb, "types_set_at": variant, "layout": layout}
+    acc.extra["schema-extends-chain-layout/" + layout] += 1
     compare(M.render(composed), X.expand(merged), acc, mid, 3, "schema-extends", composed_loader=loader,
             top_unordered=True)
 
@@ -315,6 +333,10 @@ def shard_schema_extends(arg, acc):
     try:
         if ktvariant.startswith("chain"):
             schema_extends_chain(nb, ktvariant, d, acc)
+            for layout in ("deeper", "zigzag"):
+                d2 = os.path.join(d, layout)
+                os.makedirs(d2)
+                schema_extends_chain(nb, ktvariant, d2, acc, layout)
             return acc
         kts = {"none": [None] * 3, "same": ["identifier"] * 3, "conflict": ["identifier", None, "basic-key"],
                "conflict-explicit": ["identifier", None, "basic-key"], "own-only": [None] * 3}[ktvariant]
